@@ -1245,9 +1245,27 @@ func checkSplitLoops(c *core.Ctx, st3 *core.RuleStat, rule string, pkgs []*PkgIn
 					if unit == nil {
 						c.ReportAt(rule, fn, sl.rem.Pos(), "chunk:remaining", "neither alternative of the chunk size is the remaining byte count")
 					} else {
+						// the cursor that counts bytes of the host buffer starts at 0 and says nothing about
+						// where the access unit ends: the remainder must follow a cursor that starts at an address
 						dep := dependsOn(unit, func(v ssa.Value) bool {
 							ph, ok := v.(*ssa.Phi)
-							return ok && ph.Block() == sl.header && ph != sl.rem
+							if !ok || ph.Block() != sl.header || ph == sl.rem {
+								return false
+							}
+							for _, e := range ph.Edges {
+								if k, isC := core.ConstInt(e); isC && k == 0 {
+									return false
+								}
+							}
+							return true
+						}, map[ssa.Value]bool{}) || dependsOn(unit, func(v ssa.Value) bool {
+							// ... or that adds the byte counter to an address handed in (vAddr + offset)
+							prm, ok := v.(*ssa.Parameter)
+							if !ok {
+								return false
+							}
+							bt, isB := prm.Type().Underlying().(*types.Basic)
+							return isB && bt.Info()&types.IsInteger != 0
 						}, map[ssa.Value]bool{})
 						st3.Ob(dep)
 						st3.Sample("%s: chunk=min(remaining, %s)", name, short(prov.Of(unit)))
